@@ -197,6 +197,23 @@ AD_BIN = fun("att_binary", AttS, B)
 ATT_BYTES = fun("att_exact_bytes", AttS, S)            # the attachment's decoded content (what the statement calls its exact bytes)
 
 
+# re.search
+RS_NONE = fun("re_search_none", S, S, B)
+RS_START = fun("re_search_start", S, S, I)
+RS_GROUP = fun("re_search_group", S, S, I, S)
+SMatchS = ext_sort("SMatch")
+RS_MATCH = fun("re_search_match", S, S, SMatchS)
+
+# msg_parser.MsOxMessage
+MsOxS = ext_sort("MsOx")
+MsgPropS = ext_sort("MsgProp")
+MSOX = fun("msg_parser_MsOxMessage", S, MsOxS)
+MX_NONE = fun("msox_prop_none", MsOxS, S, B)
+MX_STR = fun("msox_prop_str", MsOxS, S, S)
+MX_PROP = fun("msox_prop", MsOxS, S, MsgPropS)
+SRC_MSOX = fun("source_msox", MsOxS, SrcS)
+
+
 def att_payload_truthy(a):
     p = z3.StringVal("payload")
     return z3.And(z3.Not(AD_NONE(a, p)), z3.Length(AD_STR(a, p)) > 0)
@@ -492,6 +509,8 @@ class MailExecutor(UnitsExecutor):
                 return self.m_decode(st, obj, args, kwargs, node)
             if name == "encode":
                 return self.m_encode(st, obj, args, kwargs, node)
+            if name in ("strip", "lstrip", "rstrip") and len(args) == 1 and isinstance(args[0], VStr) and args[0].const() is not None:
+                return [(st, VStr(fun(f"str_{name}_chars", S, S, S)(obj.t, args[0].t)))]
             if name == "rstrip" and len(args) == 1 and isinstance(args[0], VBytes):
                 if bytes(x.const() for x in args[0].items) != b"\r\n":
                     return [(st, VStr(fun("bytes_rstrip_" + bytes(x.const() for x in args[0].items).hex(), S, S)(obj.t)))]
@@ -1105,3 +1124,51 @@ def install(reg):
         return [(st, VOpt(AD_NONE(a, z3.StringVal(key)), VStr(AD_STR(a, z3.StringVal(key)))))]
 
     reg.method_models[("AttDict", "get")] = m_att_get
+
+    # ---- re.search on a constant pattern ------------------------------------------------
+    def m_re_search(ex, st, args, kwargs, node):
+        """re.search(pattern, s): ASSUMED total; None or a match object whose start()/group(1) are functions of (pattern, s)."""
+        pat = args[0].const() if isinstance(args[0], VStr) else None
+        if pat is None or not isinstance(args[1], VStr):
+            raise Unsupported(f"{ex.loc(node)} re.search with a non-constant pattern")
+        P, s_ = z3.StringVal(pat), args[1].t
+        out = []
+        if ex.feasible(st.pc, RS_NONE(P, s_)):
+            out.append((st.fork().assume(RS_NONE(P, s_)), NONE))
+        if ex.feasible(st.pc, z3.Not(RS_NONE(P, s_))):
+            s2 = st.assume(z3.Not(RS_NONE(P, s_)))
+            s2.assume(z3.And(RS_START(P, s_) >= 0, RS_START(P, s_) <= z3.Length(s_)))
+            out.append((s2, VExt("SMatch", RS_MATCH(P, s_))))
+        return out
+
+    def m_sm_group(ex, st, o, a, k, n):
+        t = o.t
+        g = a[0].const() if a and isinstance(a[0], VInt) else 0
+        if z3.is_app(t) and t.decl().name() == "re_search_match":
+            return [(st, VStr(RS_GROUP(t.arg(0), t.arg(1), z3.IntVal(g))))]
+        raise Unsupported("group of an unknown match")
+
+    def m_sm_start(ex, st, o, a, k, n):
+        t = o.t
+        if z3.is_app(t) and t.decl().name() == "re_search_match":
+            return [(st, VInt(RS_START(t.arg(0), t.arg(1))))]
+        raise Unsupported("start of an unknown match")
+
+    reg.ext_models["re.search"] = m_re_search
+    reg.method_models[("SMatch", "group")] = m_sm_group
+    reg.method_models[("SMatch", "start")] = m_sm_start
+
+    # ---- msg_parser.MsOxMessage ------------------------------------------------------
+    def new_msox(ex, st, args, kwargs, node):
+        """MsOxMessage(stream): ASSUMED -- may raise anything, else an object whose properties are functions of the bytes."""
+        ex.exc_any(st.fork(), "msg_parser.MsOxMessage")
+        src = args[0]
+        content = CONTENT(src.t) if isinstance(src, VExt) and src.sort == "BytesIO" else z3.String(fresh_name("msg_bytes"))
+        return [(st, VExt("MsOx", MSOX(content)))]
+
+    reg.ext_models[("new", "msg_parser.MsOxMessage")] = new_msox
+    reg.ext_models[("new", "MsOxMessage")] = new_msox
+    for prop in ("subject", "message_id", "sent_date", "body"):
+        reg.attr_models[("MsOx", prop)] = (lambda prop: lambda ex, st, obj: VOpt(MX_NONE(obj.t, z3.StringVal(prop)), VStr(MX_STR(obj.t, z3.StringVal(prop)))))(prop)
+    for prop in ("sender", "to", "cc", "bcc", "reply_to"):
+        reg.attr_models[("MsOx", prop)] = (lambda prop: lambda ex, st, obj: VExt("MsgProp", MX_PROP(obj.t, z3.StringVal(prop))))(prop)
